@@ -276,6 +276,21 @@ func runIgnore(o *Opts) {
 	}
 	corpus := []string{"", "\n", "foo/\n", "!a\n", "/a/*\n", "a/\n!a/b\n", "*.tf\n!x.tf\n", " \n", "!\n", "\t\r\n", "#c\n\n!foo\nbar/\n"}
 	flagStates := [][]bool{{true, false, false}, {true, true, true}}
+	// C16: what a parsed rule set answers must not change when another rule file is parsed later
+	stablePaths := []string{"a", "b", "foo", "x.tf", "a/b", "a/x.tf", "foo/a", "modules/a", ".git/config", ".terraform/modules/m", "c-d", "e_f/x.tf", "a b"}
+	var prevRS *verifhooks.Ruleset
+	var prevData string
+	var prevAns []bool
+	answers := func(r *verifhooks.Ruleset) []bool {
+		var out []bool
+		for _, p := range stablePaths {
+			// Excluded only: Dominating legitimately depends on the shared default-rule flags
+			// (it only licenses pruning, which C03_dominating_sound shows never changes the result)
+			ex, _ := r.Excludes(p)
+			out = append(out, ex.Excluded)
+		}
+		return out
+	}
 	for i := 0; i < nFiles+len(corpus); i++ {
 		var data string
 		hostile := rng.Chance(25)
@@ -291,6 +306,27 @@ func runIgnore(o *Opts) {
 		verifhooks.SetDefaultFlags(before)
 		rs, pn := parseRules(data)
 		after := verifhooks.DefaultFlags()
+		if prevRS != nil {
+			func() {
+				defer func() { recover() }()
+				now := answers(prevRS)
+				for k := range now {
+					if now[k] != prevAns[k] {
+						sink.Add(Case{Desc: map[string]interface{}{"op": "stability", "first": prevData, "then": data, "path": stablePaths[k]}, Kind: "stability", Key: "S|" + prevData + "|" + data, Nontrivial: true,
+							Viol: []Violation{{Property: "C16", What: fmt.Sprintf("the rule set parsed from %q answers differently for %q after the unrelated rule file %q has been parsed (shared state between rule sets)", prevData, stablePaths[k], data)}}})
+						break
+					}
+				}
+			}()
+		}
+		prevRS, prevData, prevAns = nil, "", nil
+		if pn == nil && rs != nil {
+			func() {
+				defer func() { recover() }()
+				a := answers(rs)
+				prevRS, prevData, prevAns = rs, data, a
+			}()
+		}
 		desc := map[string]interface{}{"op": "read", "data": data, "flags_before": before, "flags_after": after}
 		c := Case{Desc: desc, Kind: "read", Key: "R|" + data + fmt.Sprint(before), Nontrivial: strings.Contains(data, "!")}
 		if pn != nil {
